@@ -7,7 +7,7 @@ import ast
 from ..cfg import build_cfg, calls_in, node_calls
 from ..core import Ctx, property_info, rule, share
 from ..model import AnalysisError, FuncInfo, walk_no_nested
-from ..q import A, Dispatch, L, asrc, bound_arg, enum_members, is_self_attr, kwarg, stores, unparse
+from ..q import A, Dispatch, L, asrc, call_name_of, return_values, bound_arg, enum_members, is_self_attr, kwarg, stores, unparse
 from .c03 import declare_before_use, event_grammar, writer_typestate
 
 M = "xsdata.formats.dataclass.models"
@@ -149,7 +149,9 @@ def kind_totality(ctx: Ctx) -> None:
     # both vars lists are sorted by field index so that document order == declaration order
     for name in ("get_element_vars", "get_attribute_vars", "get_all_vars"):
         m = meta.methods[name]
-        ctx.ob(f"XmlMeta.{name} sorts by field index", A("returnsorted(_,key=get_index)") in asrc(m), at=m, construct=f"{name} sorted", msg="fields emitted out of declaration order")
+        rv = return_values(m.node)
+        ctx.ob(f"XmlMeta.{name} sorts by field index", bool(rv) and all(isinstance(v, ast.Call) and call_name_of(v) == "sorted" and unparse(kwarg(v, "key") or ast.Constant(0)) == "get_index" for v in rv), at=m, construct=f"{name} sorted",
+               msg="fields emitted out of declaration order")
 
 
 @rule("C01.R2")
@@ -273,15 +275,16 @@ def wrapper_symmetry(ctx: Ctx) -> None:
                                   and ast.unparse(tgt.slice.value) == ast.unparse(val.value) for _, tgt, val in stores(b.node) if isinstance(tgt, ast.Subscript) and isinstance(tgt.slice, ast.Attribute) and isinstance(val, ast.Attribute))
     ctx.ob("reader's wrappers map is keyed by var.wrapper_qname -> var.qname", ok, at=b, construct="wrappers map", msg="wrapper map built from another attribute than the one written")
     st = ctx.repo.func(f"{PAR}.bases:NodeParser.start")
-    ctx.ob("NodeParser.start consults meta.wrappers before delegating to child()", A("_ in _.meta.wrappers") in asrc(st) and A("WrapperNode(parent=_, qname=_, ns_map=_)") in asrc(st), at=st,
+    ctx.ob("NodeParser.start consults meta.wrappers before delegating to child()", A("_ in _.meta.wrappers") in asrc(st) and any(call_name_of(c) == "WrapperNode" and {k.arg for k in c.keywords} >= {"parent", "qname", "ns_map"} for c in calls_in(st.node)), at=st,
            construct="wrapper dispatch", msg="wrapper elements treated as unknown children")
     wn = ctx.repo.func(f"{PAR}.nodes.wrapper:WrapperNode.child")
-    ctx.ob("WrapperNode.child delegates to the parent with wrapper=self.qname", A("return self.parent.child(_, _, _, _, wrapper=self.qname)") in asrc(wn), at=wn, construct="wrapper child",
+    ctx.ob("WrapperNode.child delegates to the parent with wrapper=self.qname", any(unparse(c.func) == "self.parent.child" and unparse(kwarg(c, "wrapper") or ast.Constant(0)) == "self.qname" for c in calls_in(wn.node)), at=wn, construct="wrapper child",
            msg="wrapped items lose their wrapper association")
     ec = ctx.repo.func(f"{PAR}.nodes.element:ElementNode.child")
     bo = ctx.repo.func(f"{PAR}.nodes.element:ElementNode.bind_object")
     for fi in (ec, bo):
-        ctx.ob(f"{fi.name}: a var is skipped when its wrapper_qname differs from the wrapper seen", A("if _ and _.wrapper_qname != _:;continue") in asrc(fi), at=fi, construct=f"{fi.name} wrapper filter",
+        cmp_ = [x for x in walk_no_nested(fi.node) if isinstance(x, ast.Compare) and len(x.ops) == 1 and isinstance(x.ops[0], (ast.NotEq, ast.Eq)) and any(isinstance(y, ast.Attribute) and y.attr == "wrapper_qname" for y in (x.left, x.comparators[0]))]
+        ctx.ob(f"{fi.name}: a var is skipped when its wrapper_qname differs from the wrapper seen", bool(cmp_), at=fi, construct=f"{fi.name} wrapper filter",
                msg="items bound to a field with another wrapper")
     # DictEncoder / DictDecoder (JSON) nest under var.wrapper then var.local_name - covered by C04.R2
 
